@@ -31,8 +31,9 @@ def base_setup(rng):
     """two or three providers with inventory, provider 1 with a trait and an aggregate, maybe existing consumers"""
     setup = [('rp_create', 39, 1, 1, None), ('inv_set', 39, 1, 0, [inv(0, 8), inv(2, 100, ratio=rng.choice([1.0, 1.5]))]),
              ('rp_create', 39, 2, 2, None), ('inv_set', 39, 2, 0, [inv(0, 8)]),
-             ('traits_set', 39, 1, 1, [0]), ('aggs_set', 39, 1, 2, [1])]
-    gens = {1: 3, 2: 1}
+             ('traits_set', 39, 1, 1, [0]), ('aggs_set', 39, 1, 2, [1]),
+             ('rp_create', 39, 3, 3, None)]          # provider 3: no inventory at all
+    gens = {1: 3, 2: 1, 3: 0}
     consumers = {}
     for c in (2, 3):
         if rng.random() < 0.6:
@@ -48,7 +49,7 @@ def gen_scenario(rng, pid, k):
     n = rng.choice([2, 2, 3])
     reqs = []
     guards = []
-    u = 1
+    u = rng.choice([1, 1, 3])
     v = rng.choice([28, 30, 36, 38, 39])
 
     def g_for(u):
@@ -60,7 +61,7 @@ def gen_scenario(rng, pid, k):
         g = g_for(u)
         i = len(reqs)
         if kind == 'inv_set':
-            reqs.append(('inv_set', v, u, g, [inv(0, rng.choice([4, 8, 16])), inv(2, 100)][:rng.choice([1, 2])]))
+            reqs.append(('inv_set', v, u, g, [inv(0, rng.choice([4, 8, 16])), inv(2, 100)][:rng.choice([0, 1, 2] if u == 3 else [1, 2])]))
             guards.append((i, 'rp', u, g))
         elif kind == 'inv_put':
             reqs.append(('inv_put', v, u, g, inv(0, rng.choice([2, 8, 16]))))
@@ -137,6 +138,8 @@ FIXED = {
     'C05': [
         ('same-traits-twice', [('traits_set', 39, 1, 3, [0, 1]), ('traits_set', 39, 1, 3, [0, 1])], [(0, 'rp', 1, 3), (1, 'rp', 1, 3)]),
         ('traits-vs-inventory', [('traits_set', 39, 1, 3, [1]), ('inv_set', 39, 1, 3, [inv(0, 4)])], [(0, 'rp', 1, 3), (1, 'rp', 1, 3)]),
+        ('empty-inventory-vs-traits', [('inv_set', 39, 3, 0, []), ('traits_set', 39, 3, 0, [1])], [(0, 'rp', 3, 0), (1, 'rp', 3, 0)]),
+        ('delete-all-vs-aggregates', [('inv_delete_all', 39, 3), ('aggs_set', 39, 3, 0, [2])], [(1, 'rp', 3, 0)]),
         ('three-guarded', [('inv_set', 39, 1, 3, [inv(0, 4)]), ('aggs_set', 39, 1, 3, [2]), ('inv_put', 39, 1, 3, inv(0, 16))],
          [(0, 'rp', 1, 3), (1, 'rp', 1, 3), (2, 'rp', 1, 3)]),
     ],
@@ -160,7 +163,7 @@ def fixed_scenarios(pid):
     setup = [('rp_create', 39, 1, 1, None), ('inv_set', 39, 1, 0, [inv(0, 8), inv(2, 100)]),
              ('rp_create', 39, 2, 2, None), ('inv_set', 39, 2, 0, [inv(0, 8)]),
              ('traits_set', 39, 1, 1, [0]), ('aggs_set', 39, 1, 2, [1]),
-             ('alloc_put', 39, cons(2, None, [(2, [(0, 1)])]))]
+             ('alloc_put', 39, cons(2, None, [(2, [(0, 1)])])), ('rp_create', 39, 3, 3, None)]
     return [conc.Scenario(name, setup, reqs, guards) for name, reqs, guards in FIXED[pid]]
 
 
